@@ -459,7 +459,7 @@ class C11(core.PropertyCheck):
     parallel = True
     quick_budget = 1500
     thorough_budget = 15000
-    level = "proof (reduction) + checked obligation + end-to-end differential"
+    level = "proof"
     rule = ("e2e: generated project (2-4 rst pages in nested dirs, an include, literalincludes of present/missing files, figures/"
             "images present/missing, card urls, steps + extracts YAML whose content uses :doc:/literalinclude/figure, :doc: links to "
             "present/missing pages, openapi spec file, constants/substitutions/default_domain in snooty.toml, optionally a page "
